@@ -1222,11 +1222,19 @@ def run_c20(facts, out):
     for p2, b2 in sorted(facts.bodies.items()):
         if not p2.startswith(EV):
             continue
+        has_rep = has_ext = False
         for bb, t in b2.calls():
             c = callee_of(t)
             if c and c['name'] == 'push' and len(t['args']) == 2 and kind_of_value(b2, op_local(t['args'][1])) == 'Tick':
                 gens.append(b2)
                 break
+            if c and c['name'] == 'push' and len(t['args']) == 2 and kind_of_value(b2, op_local(t['args'][1])) == 'Repeat':
+                has_rep = True
+            if c and c['name'] == 'extend' and len(t['args']) == 2:
+                has_ext = True
+        else:
+            if has_rep and has_ext and '{closure' not in p2:
+                gens.append(b2)         # the ticks of the span are appended with one `extend` of an iterator pipeline
     out.anchor('SS-C20', 'the function that generates the ticks of a span', len(gens) == 1, str([g_.path for g_ in gens]))
     g = gens[0] if len(gens) == 1 else None
     gt = g.path if g is not None else EV + 'generate_ticks'
@@ -1240,6 +1248,22 @@ def run_c20(facts, out):
                 pushes.append((bb, t, kind))
         nrep = sum(1 for p in pushes if p[2] == 'repeat')
         ntick = sum(1 for p in pushes if p[2] == 'tick')
+        if ntick == 0:
+            # iterator form: the ticks of the span are produced by a pipeline (`successors(..).take_while(..).map(|d| Tick
+            # event)`) and appended with one `extend`: that call is the tick emission
+            hg = facts.hir.get(g.path)
+            tick_in_closure = []
+            if hg is not None:
+                def vt(n, anc):
+                    if n.get('k') == 'struct' and (n.get('adt') or '').endswith('SliderEvent') and \
+                            any(f['n'] == 'kind' and 'Tick' in repr(f['e']) and 'LastTick' not in repr(f['e']) for f in n['fields']) \
+                            and any(a.get('k') == 'closure' for a in anc):
+                        tick_in_closure.append(n)
+                H.walk(hg['body'], vt)
+            exts = [(bb, t) for bb, t in g.calls() if callee_of(t) and callee_of(t)['name'] == 'extend' and len(t['args']) == 2]
+            if tick_in_closure and len(exts) == 1:
+                pushes.append((exts[0][0], exts[0][1], 'tick'))
+                ntick = 1
         out.anchor('SS-C20', 'repeat/tick pushes in generate_ticks', nrep == 2 and ntick == 1, 'repeat=%d tick=%d' % (nrep, ntick))
         for bb, t, kind in pushes:
             guards = _guards(g, bb)
